@@ -445,16 +445,28 @@ def rule_partial(model):
     mi_ = model.inlined_view()
     _cg(mi_)
     plain_funcs = {f.where: f for f in compile_funcs(model)}
-    for fi in compile_funcs(mi_):
-        dicts = _param_dicts(mi_, fi)
+    inl_funcs = list(compile_funcs(mi_))
+    fell_back = []
+    work = list(inl_funcs)
+    while work:
+        fi = work.pop(0)
+        mdl = model if fi is plain_funcs.get(fi.where) else mi_
+        dicts = _param_dicts(mdl, fi)
         if not dicts:
             continue
-        dom = KeyDomain(mi_, fi, dicts)
+        dom = KeyDomain(mdl, fi, dicts)
         it = Interp(dom, max_states=60000)
         it.run(fi.node, KS())
-        if it.overflow and fi.where in plain_funcs:
+        if it.overflow and fi.where in plain_funcs and \
+                fi is not plain_funcs[fi.where]:
             # the view with constant loops unrolled has too many paths
             # here: the function as written (loops kept) is judged instead
+            # -- together with the helpers that had been inlined into it
+            if not fell_back:
+                seen_w = {f.where for f in inl_funcs}
+                work += [f for w, f in plain_funcs.items()
+                         if w not in seen_w]
+            fell_back.append(fi.where)
             fi = plain_funcs[fi.where]
             dicts = _param_dicts(model, fi)
             if not dicts:
